@@ -11,6 +11,7 @@
 //	active.find                   frac.TokenList.FindPattern (real active token list)  vs SV.Pattern.activeFind
 //	provider.get                  token.Provider.GetToken (findBlock + block cache)     vs SV.Pattern.providerGetTokens
 //	spec.leaf                     check of the real searchers                          vs SV.Spec.Leaf.valMatch (shared Spec)
+//	sealed.sequence               call sequences on one sealedTokenIndex               vs SV.Pattern.sealedSearchSeq (stateless)
 //	table.select                  token.Table.SelectEntries                            vs SV.Pattern.selectEntries
 //	sealed.search                 sealedTokenIndex.GetTIDsByTokenExpr (hand-built table) vs SV.Pattern.sealedSearch
 //
@@ -199,8 +200,16 @@ type rng struct {
 }
 
 type tok struct {
-	lit []term
-	r   *rng
+	lit   []term
+	r     *rng
+	field string // "" = "f"
+}
+
+func (t tok) fld() string {
+	if t.field == "" {
+		return "f"
+	}
+	return t.field
 }
 
 func (t tok) wf() bool { return t.r != nil || wfTerms(t.lit) }
@@ -252,7 +261,7 @@ func parseTok(s string) (tok, error) {
 
 func (t tok) parserToken() parser.Token {
 	if t.r != nil {
-		pr := &parser.Range{Field: "f", IncludeFrom: t.r.incFrom, IncludeTo: t.r.incTo}
+		pr := &parser.Range{Field: t.fld(), IncludeFrom: t.r.incFrom, IncludeTo: t.r.incTo}
 		pr.From = parser.Term{Kind: parser.TermSymbol, Data: "*"}
 		pr.To = parser.Term{Kind: parser.TermSymbol, Data: "*"}
 		if t.r.from != nil {
@@ -263,7 +272,9 @@ func (t tok) parserToken() parser.Token {
 		}
 		return pr
 	}
-	return toLiteral(t.lit)
+	l := toLiteral(t.lit)
+	l.Field = t.fld()
+	return l
 }
 
 // ------------------------------------------------------------------ numbers
@@ -582,8 +593,8 @@ type H struct {
 	rep *vh.Report
 	rnd *vh.RNG
 
-	chPf, chFind, chSeq, chCheck, chGlob, chParse, chRange, chSearch, chActive, chProvider, chSelect, chSealed, chSpec *vh.Channel
-	orGlob, orSearch, orRange, orFrac                                                                                  *vh.Oracle
+	chPf, chFind, chSeq, chCheck, chGlob, chParse, chRange, chSearch, chActive, chProvider, chSelect, chSealed, chSeq2, chSpec *vh.Channel
+	orGlob, orSearch, orRange, orFrac                                                                                          *vh.Oracle
 }
 
 func (h *H) violate(site, class, what string, replay ...string) {
@@ -796,6 +807,7 @@ func main() {
 	h.chSearch = vh.NewChannel("pattern.search", "pattern.Search vs SV.Pattern.search over simple providers (ordered and not) and real token.Provider over hand-built tables; exhaustive small dictionaries, random larger; non-trivial = >1 token and non-empty answer")
 	h.chActive = vh.NewChannel("active.find", "real frac.TokenList (NewActiveTokenList + Append in several batches, two fields) FindPattern vs SV.Pattern.activeFind on the (tid, value) pairs read back from the list; small exhaustive and random dictionaries, literal / wildcard / range tokens; non-trivial = non-empty answer")
 	h.chProvider = vh.NewChannel("provider.get", "token.Provider.GetToken call sequences (ascending, descending, random jumps - exercising the cached-block fast path and the binary search) over hand-built tables vs SV.Pattern.providerGetTokens; all layouts of small dictionaries, random larger; non-trivial = more than one block")
+	h.chSeq2 = vh.NewChannel("sealed.sequence", "SEQUENCES of GetTIDsByTokenExpr calls on ONE sealedTokenIndex (as one query serves all its leaves) vs SV.Pattern.sealedSearchSeq (stateless: call-by-call sealedSearch): same field with longer-then-shorter and shorter-then-longer leading literals, empty hints (*x patterns, ranges), a second field interleaved; every block layout of small dictionaries; non-trivial = >1 block and >1 call on the same field")
 	h.chSpec = vh.NewChannel("spec.leaf", "the real pattern package (literalSearch/wildcardSearch.check, range searcher check) vs the SHARED Spec's Leaf.valMatch (Spec/Store.lean: globMatch, bytesLt/Le, numVal): every pattern over {a,b,*} x every token over {a,b} up to the length bound; ranges (a) against valMatch on the fragment where ParseFloat and Spec.numVal agree (every string involved is a decimal integer of <= 15 digits or is rejected by ParseFloat) and (b) ALL range cases against Leaf.valMatchWith pf (Spec/StoreNum.lean) with pf = the same ParseFloat key table the harness gives the model; non-trivial = wildcard pattern or a given range end")
 	h.chSelect = vh.NewChannel("table.select", "token.Table.SelectEntries vs SV.Pattern.selectEntries: every sorted dictionary over a small universe in every block layout x hints; non-trivial = >1 block and non-empty hint")
 	h.chSealed = vh.NewChannel("sealed.search", "sealedTokenIndex.GetTIDsByTokenExpr over a hand-built table with pre-loaded blocks vs SV.Pattern.sealedSearch; every dictionary <= 6 tokens over a small universe in every block layout; non-trivial = >1 block and non-empty answer")
@@ -822,11 +834,12 @@ func main() {
 		h.genRange()
 		h.genSearch()
 		h.genSealed()
+		h.genSealedSeq()
 		h.genActive()
 		h.genFrac()
 	}
 
-	for _, c := range []*vh.Channel{h.chPf, h.chFind, h.chSeq, h.chCheck, h.chGlob, h.chParse, h.chRange, h.chSearch, h.chActive, h.chProvider, h.chSealed, h.chSpec} {
+	for _, c := range []*vh.Channel{h.chPf, h.chFind, h.chSeq, h.chCheck, h.chGlob, h.chParse, h.chRange, h.chSearch, h.chActive, h.chProvider, h.chSealed, h.chSeq2, h.chSpec} {
 		if o.Only == "" || o.Only == c.Name {
 			rep.AddChannel(c, o.Driver)
 		}
@@ -950,6 +963,8 @@ func (h *H) replay(line string) error {
 			return err
 		}
 		h.opSealed(t, uint32(base), blocks, make([]bool, len(blocks)))
+	case "sealedseq":
+		return h.replaySealedSeq(f)
 	case "frac":
 		return h.replayFrac(f)
 	default:
@@ -1337,6 +1352,148 @@ func (h *H) genSealed() {
 }
 
 func (h *H) addSelect(hint []byte, blocks [][][]byte) { h.opSelect(hint, blocks) }
+
+type seqCall struct {
+	fi int // 0 = field "f", 1 = the decoy field
+	t  tok
+}
+
+func decoyRun(base uint32) [][]byte {
+	var run [][]byte
+	for i := uint32(1); i < base; i++ {
+		run = append(run, []byte(fmt.Sprintf("zz%03d", i)))
+	}
+	return run
+}
+
+// opSealedSeq: one sealedTokenIndex instance answers the calls in order; the spec is stateless.
+func (h *H) opSealedSeq(base uint32, blocks [][][]byte, phys []bool, calls []seqCall) {
+	if base < 2 {
+		base = 2 // the decoy field occupies TIDs 1..base-1
+	}
+	fx, err := newSealedFixture(base, blocks, phys)
+	if err != nil {
+		h.rep.Note("fixture: %v", err)
+		return
+	}
+	dict, decoy := flatten(blocks), decoyRun(base)
+	var cs []string
+	var nums [][]byte
+	sameField := 0
+	for _, c := range calls {
+		cs = append(cs, fmt.Sprintf("%d=%s", c.fi, c.t))
+		nums = append(nums, c.t.numStrs(nil)...)
+		if c.fi == 0 {
+			sameField++
+		}
+	}
+	nums = append(append(nums, dict...), decoy...)
+	req := fmt.Sprintf("sealedseq %d@%s+1@%s %s %s", base, fmtBlocks(blocks), hxList(decoy, ","), strings.Join(cs, "|"), numTable(nums...))
+	sess := frac.VerifSealedSession(context.Background(), fx.table, fx.cache)
+	var got, want []string
+	for _, c := range calls {
+		t := c.t
+		t.field = []string{"f", "decoy"}[c.fi]
+		got = append(got, strings.TrimPrefix(guard(func() string { return fmtTids(sess(t.parserToken())) }), "ok "))
+		if c.fi == 0 {
+			want = append(want, strings.TrimPrefix(refScan(c.t, base, dict), "ok "))
+		} else {
+			want = append(want, strings.TrimPrefix(refScan(c.t, 1, decoy), "ok "))
+		}
+	}
+	impl := "ok " + strings.Join(got, " | ")
+	h.chSeq2.Add(req, impl, len(blocks) > 1 && sameField > 1, fmt.Sprintf("blocks=%d", min(len(blocks), 6)), fmt.Sprintf("calls=%d", len(calls)))
+	allWF := sortedDistinct(dict)
+	for _, c := range calls {
+		allWF = allWF && c.t.wf()
+	}
+	if allWF {
+		h.orSearch.Case(req, len(blocks) > 1 && sameField > 1, "tp=sealed-sequence")
+		for i := range calls {
+			if got[i] != want[i] {
+				h.violate("frac/sealed_index.go:GetTIDsByTokenExpr", "sealed-sequence-differs-from-scan",
+					fmt.Sprintf("one sealedTokenIndex, calls %s over the dictionary %q in blocks %s: call %d answers %s, scanning every token of its field gives %s", strings.Join(cs, " | "), dict, fmtBlocks(blocks), i+1, got[i], want[i]), req)
+				break
+			}
+		}
+	}
+}
+
+func (h *H) replaySealedSeq(f []string) error {
+	if len(f) < 3 {
+		return fmt.Errorf("want >= 3 fields")
+	}
+	flds := strings.Split(f[1], "+")
+	p := strings.SplitN(flds[0], "@", 2)
+	if len(p) != 2 {
+		return fmt.Errorf("bad field spec")
+	}
+	base, _ := strconv.Atoi(p[0])
+	blocks, err := parseBlocks(p[1])
+	if err != nil {
+		return err
+	}
+	var calls []seqCall
+	for _, c := range strings.Split(f[2], "|") {
+		q := strings.SplitN(c, "=", 2)
+		if len(q) != 2 {
+			return fmt.Errorf("bad call %q", c)
+		}
+		fi, _ := strconv.Atoi(q[0])
+		t, err := parseTok(q[1])
+		if err != nil {
+			return err
+		}
+		calls = append(calls, seqCall{fi, t})
+	}
+	h.opSealedSeq(uint32(base), blocks, make([]bool, len(blocks)), calls)
+	return nil
+}
+
+func (h *H) genSealedSeq() {
+	o := h.o
+	uni := words("ab", 2)
+	sort.Strings(uni)
+	a, b := "a", "b"
+	pool := []tok{}
+	for _, p := range []string{"a*", "ab*", "aa*", "b*", "ba*", "*", "*a", "*b*", "a", "ab", "a*b", "ab*a", ""} {
+		pool = append(pool, tok{lit: patTerms(p)})
+	}
+	pool = append(pool, tok{r: &rng{from: &a, to: &b, incFrom: true}}, tok{r: &rng{from: &a}}, tok{r: &rng{}})
+	dec := []tok{{lit: patTerms("zz*")}, {lit: patTerms("zz001")}, {lit: patTerms("*")}}
+	n := 0
+	subsets(uni, o.Pick(6, 7), func(d [][]byte) {
+		if len(d) < 2 {
+			return
+		}
+		for mask := 0; mask < 1<<(len(d)-1); mask++ {
+			n++
+			if !o.Thorough() && n%2 == 0 {
+				continue
+			}
+			blocks := splitAll(d, mask)
+			phys := make([]bool, len(blocks))
+			for i := range phys {
+				phys[i] = (mask>>i)&1 == 1
+			}
+			for k := 0; k < o.Pick(4, 8); k++ {
+				var calls []seqCall
+				for l := h.rnd.Range(2, 4); l > 0; l-- {
+					if h.rnd.Chance(1, 6) {
+						calls = append(calls, seqCall{1, dec[h.rnd.Intn(len(dec))]})
+					} else {
+						calls = append(calls, seqCall{0, pool[h.rnd.Intn(len(pool))]})
+					}
+				}
+				h.opSealedSeq(uint32(2+mask%3), blocks, phys, calls)
+			}
+			// the directed pairs: longer literal first, then shorter / empty hints
+			for _, pr := range [][2]int{{1, 0}, {0, 1}, {2, 0}, {1, 5}, {1, 6}, {4, 3}, {1, 13}, {9, 0}, {8, 0}, {0, 8}} {
+				h.opSealedSeq(uint32(2+mask%3), blocks, phys, []seqCall{{0, pool[pr[0]]}, {0, pool[pr[1]]}})
+			}
+		}
+	})
+}
 
 // opProvider: one real token.Provider, a sequence of GetToken calls.
 func (h *H) opProvider(base uint32, blocks [][][]byte, phys []bool, tids []uint32) {
